@@ -245,16 +245,12 @@ fn selected_view_agrees(um: &UserModel, o: &Obs) -> Option<bool> {
 }
 
 /// tight failure classes: predicate on (state before, op, redo-stack label, state after)
-fn classify(pre: &Obs, tok: &str, redo_top: Option<&String>, post: &Obs) -> String {
+fn classify(pre: &Obs, tok: &str, _redo_top: Option<&String>, post: &Obs) -> String {
     let f: Vec<&str> = tok.split(':').collect();
     let a: Vec<i64> = f[1..].iter().filter_map(|x| x.parse::<i64>().ok()).collect();
     if (post.sel as usize) >= post.n {
-        if f[0] == "del" && a.len() == 1 && (a[0] as usize) + 1 < pre.n && a[0] >= 0 && (pre.sel as usize) + 1 == pre.n {
-            return "sel_sheet_after_delete_before_selected".to_string();
-        }
-        if f[0] == "redo" && redo_top.map(|s| s == "del:0").unwrap_or(false) && (pre.sel as usize) + 1 == pre.n {
-            return "sel_sheet_after_redo_delete_first".to_string();
-        }
+        // (the classes of delete_sheet and of redo of DeleteSheet{0} were repaired in /repo:
+        // any dangling selected sheet is an ordinary violation now)
         return format!("sel_sheet_invalid_other_{}", f[0]);
     }
     // which view broke
@@ -264,8 +260,6 @@ fn classify(pre: &Obs, tok: &str, redo_top: Option<&String>, post: &Obs) -> Stri
         _ => return format!("view_missing_{}", f[0]),
     };
     match f[0] {
-        "pd" if qv.row > LAST_ROW && qv.row == qv.top + (pv.row - pv.top) && qv.range == [qv.row, qv.col, qv.row, qv.col] => "page_down_past_last_row".to_string(),
-        "pu" if qv.row < 1 && qv.row == qv.top + (pv.row - pv.top) && qv.range == [qv.row, qv.col, qv.row, qv.col] => "page_up_before_first_row".to_string(),
         "as" if a.len() == 2 && !grid(a[0] as i32, a[1] as i32) && qv.range == [pv.range[0], pv.range[1], a[0] as i32, a[1] as i32] && qv.row == pv.row && qv.col == pv.col => "area_selecting_offgrid".to_string(),
         "as" if a.len() == 2 && grid(a[0] as i32, a[1] as i32) && qv.range == [pv.range[0], pv.range[1], a[0] as i32, a[1] as i32] && qv.row == pv.row && qv.col == pv.col && !in_hull(&qv) && (pv.row != pv.range[0] || pv.col != pv.range[1]) => "area_selecting_cell_not_anchor".to_string(),
         "ps" if qv.row == pv.row && qv.col == pv.col && qv.range[0] == pv.range[0] && qv.range[1] == pv.range[1] && !in_hull(&qv) && grid(qv.range[2], qv.range[3]) && (pv.range[2] < pv.range[0] || pv.range[3] < pv.range[1]) => "paste_styles_reversed_range".to_string(),
@@ -572,7 +566,7 @@ fn main() {
         cs.case(line.trim_end(), &obs);
     };
 
-    // ---- 1. the witnesses of the known findings and of the _refuted theorems ------------------
+    // ---- 1. the witnesses of the known findings (_refuted theorems) and of the repaired ones ----
     let plain3: Vec<String> = vec!["S:-:-:-:-:-".to_string(); 3];
     let plain1: Vec<String> = vec!["S:-:-:-:-:-".to_string(); 1];
     let w = |s: &str| -> Vec<String> { s.split(' ').map(|x| x.to_string()).collect() };
